@@ -45,7 +45,151 @@ def _resolve_helper(model: Model, fi: FuncInfo, call: ast.Call) -> Optional[Tupl
         g = model.find_method(fi.cls, f.attr)
         if g is not None:
             return g, (0 if "staticmethod" in g.decorators else 1)
+    if isinstance(f, ast.Attribute) and isinstance(f.value, ast.Name):
+        # x.meth(..) where x is a local bound once, to a new object of a private record class
+        ci = _local_record_class(model, fi, f.value.id)
+        if ci is not None:
+            g = ci.methods.get(f.attr)
+            if g is not None and not g.decorators:
+                return g, 1
     return None
+
+
+def _record_field_names(ci) -> Optional[List[str]]:
+    """constructor parameters = fields, in order, of a private dataclass-like class (annotated names in the class body,
+    no __init__ / __post_init__ / __new__), or of a class whose __init__ stores each parameter under its own name"""
+    if any(k in ci.methods for k in ("__post_init__", "__new__", "__setattr__", "__getattr__", "__getattribute__")):
+        return None
+    init = ci.methods.get("__init__")
+    if init is None:
+        if not any(ast.unparse(d).split("(")[0].split(".")[-1] == "dataclass" for d in ci.node.decorator_list):
+            return None
+        out = []
+        for st in ci.node.body:
+            if isinstance(st, ast.AnnAssign) and isinstance(st.target, ast.Name):
+                out.append(st.target.id)
+            elif isinstance(st, ast.Assign) and len(st.targets) == 1 and isinstance(st.targets[0], ast.Name) and getattr(st, "_was_annotated", False):
+                out.append(st.targets[0].id)
+        return out or None
+    ps = init.pos_params[1:]
+    a = init.node.args
+    if a.vararg or a.kwarg or a.kwonlyargs or a.defaults:
+        return None
+    body = [st for st in init.node.body if not (isinstance(st, ast.Expr) and isinstance(st.value, ast.Constant))]
+    got = []
+    for st in body:
+        if isinstance(st, ast.Assign) and len(st.targets) == 1 and isinstance(st.targets[0], ast.Attribute) and isinstance(st.targets[0].value, ast.Name) and st.targets[0].value.id == init.pos_params[0] and isinstance(st.value, ast.Name) and st.value.id == st.targets[0].attr:
+            got.append(st.value.id)
+        else:
+            return None
+    return ps if got == ps else None
+
+
+def _local_record_class(model: Model, fi: FuncInfo, name: str):
+    from .model import ClassInfo
+
+    if name in fi.params or isinstance(fi.node, ast.Lambda):
+        return None
+    defs = [n for n in ast.walk(fi.node) if isinstance(n, ast.Name) and n.id == name and isinstance(n.ctx, (ast.Store, ast.Del))]
+    if len(defs) != 1:
+        return None
+    asg = [n for n in ast.walk(fi.node) if isinstance(n, ast.Assign) and len(n.targets) == 1 and n.targets[0] is defs[0]]
+    if len(asg) != 1 or not isinstance(asg[0].value, ast.Call) or not isinstance(asg[0].value.func, ast.Name):
+        return None
+    tgt = model.lookup_target(model.resolve_dotted(fi.module, fi, asg[0].value.func.id))
+    if not isinstance(tgt, ClassInfo) or not tgt.name.startswith("_") or tgt.name.startswith("__") or model.is_visitor(tgt) or tgt.base_names:
+        return None
+    if _record_field_names(tgt) is None:
+        return None
+    return tgt
+
+
+def _split_records(model: Model, fi: FuncInfo, body: List[ast.stmt]) -> Tuple[List[ast.stmt], bool]:
+    """x = _Rec(a, b) where x is a local that is only ever read or written field by field (x.f): one local per field.
+    The object cannot be observed as a whole, so its fields are variables of the function."""
+    changed = False
+    cands: Dict[str, Tuple[ast.Assign, List[str]]] = {}
+    for st in body:
+        for n in ast.walk(st):
+            if isinstance(n, ast.Assign) and len(n.targets) == 1 and isinstance(n.targets[0], ast.Name) and isinstance(n.value, ast.Call) and isinstance(n.value.func, ast.Name):
+                ci = _local_record_class(model, fi, n.targets[0].id)
+                if ci is not None and ci.name == n.value.func.id.split(".")[-1] or (ci is not None):
+                    cands[n.targets[0].id] = (n, _record_field_names(ci))  # type: ignore
+    if not cands:
+        return body, False
+    from .model import parent as _parent
+
+    # parents inside the (partly synthetic) body
+    par: Dict[int, ast.AST] = {}
+    for st in body:
+        for n in ast.walk(st):
+            for c in ast.iter_child_nodes(n):
+                par[id(c)] = n
+    all_names = {n.id for st in body for n in ast.walk(st) if isinstance(n, ast.Name)} | set(fi.params)
+    for x, (asg, fields) in list(cands.items()):
+        ok = True
+        call = asg.value
+        if any(isinstance(a, ast.Starred) for a in call.args) or any(k.arg is None or k.arg not in fields for k in call.keywords) or len(call.args) + len(call.keywords) != len(fields):
+            ok = False
+        n_store = 0
+        for st in body:
+            for n in ast.walk(st):
+                if isinstance(n, ast.Name) and n.id == x:
+                    if n is asg.targets[0]:
+                        n_store += 1
+                        continue
+                    p_ = par.get(id(n))
+                    if not (isinstance(p_, ast.Attribute) and p_.value is n and p_.attr in fields):
+                        ok = False
+                        continue
+                    gp = par.get(id(p_))
+                    if isinstance(gp, ast.Call) and gp.func is p_:
+                        ok = False
+        if n_store != 1 or any(f"{x}__{f_}" in all_names for f_ in fields):
+            ok = False
+        if not ok:
+            del cands[x]
+    if not cands:
+        return body, False
+
+    class _S(ast.NodeTransformer):
+        def visit_Attribute(self, n: ast.Attribute):
+            if isinstance(n.value, ast.Name) and n.value.id in cands and n.attr in cands[n.value.id][1]:
+                return ast.copy_location(ast.Name(id=f"{n.value.id}__{n.attr}", ctx=n.ctx), n)
+            return self.generic_visit(n)
+
+        def visit_Assign(self, n: ast.Assign):
+            if len(n.targets) == 1 and isinstance(n.targets[0], ast.Name) and n.targets[0].id in cands and isinstance(n.value, ast.Call):
+                x_ = n.targets[0].id
+                fields_ = cands[x_][1]
+                vals: Dict[str, ast.AST] = {}
+                for f_, a_ in zip(fields_, n.value.args):
+                    vals[f_] = a_
+                for k_ in n.value.keywords:
+                    vals[k_.arg] = k_.value  # type: ignore
+                tgt = ast.Tuple(elts=[ast.Name(id=f"{x_}__{f_}", ctx=ast.Store()) for f_ in fields_], ctx=ast.Store())
+                val = ast.Tuple(elts=[self.visit(vals[f_]) for f_ in fields_], ctx=ast.Load())
+                if len(fields_) == 1:
+                    new = ast.Assign(targets=[tgt.elts[0]], value=val.elts[0], type_comment=None)
+                else:
+                    # evaluated left to right like the constructor's arguments, bound together
+                    new = ast.Assign(targets=[tgt], value=val, type_comment=None)
+                ast.copy_location(new, n)
+                ast.fix_missing_locations(new)
+                return new
+            return self.generic_visit(n)
+
+    out = []
+    for st in body:
+        if any(isinstance(n, ast.Name) and n.id in cands for n in ast.walk(st)):
+            st2 = _S().visit(clone_ast(st))
+            ast.fix_missing_locations(st2)
+            st2._fresh = True  # type: ignore
+            out.append(st2)
+            changed = True
+        else:
+            out.append(st)
+    return out, changed
 
 
 def _finder_shape(h: FuncInfo, skip: int):
@@ -142,12 +286,22 @@ class _Sub(ast.NodeTransformer):
         return node
 
 
-def unrolled(model: Model, fi: FuncInfo) -> FuncInfo:
+_KEEP: frozenset = frozenset()
+
+
+def unrolled(model: Model, fi: FuncInfo, keep: frozenset = frozenset()) -> FuncInfo:
+    """keep: names of helpers that stay calls (a rule that reasons about the call of a named helper asks for that)"""
+    global _KEEP
     cache = model.__dict__.setdefault("_unrolled_cache", {})
-    if fi.qual in cache:
-        return cache[fi.qual]
-    out = _unroll(model, fi)
-    cache[fi.qual] = out
+    k = (fi.qual, keep)
+    if k in cache:
+        return cache[k]
+    old, _KEEP = _KEEP, keep
+    try:
+        out = _unroll(model, fi)
+    finally:
+        _KEEP = old
+    cache[k] = out
     return out
 
 
@@ -271,6 +425,48 @@ def _is_first_non_none_pair(st, nxt) -> bool:
     return isinstance(t, ast.Compare) and len(t.ops) == 1 and isinstance(t.ops[0], ast.IsNot) and isinstance(t.left, ast.Name) and t.left.id == x and _is_none(t.comparators[0])
 
 
+def _assign_conv(stmts: List[ast.stmt], target: ast.expr, at: ast.stmt) -> Optional[List[ast.stmt]]:
+    """the statements of a helper with several `return e` (all in if/else structure, every path ending in a return or a
+    raise), placed where `target = helper(..)` stood: each `return e` is `target = e`, and what followed an `if` in the
+    helper moves into the branches that reach it"""
+
+    def has_ret(n) -> bool:
+        return any(isinstance(y, ast.Return) for y in ast.walk(n))
+
+    def conv(ss: List[ast.stmt]) -> Optional[List[ast.stmt]]:
+        out: List[ast.stmt] = []
+        for i, st in enumerate(ss):
+            rest = ss[i + 1:]
+            if isinstance(st, ast.Return):
+                a_ = ast.copy_location(ast.Assign(targets=[clone_ast(target)], value=st.value, type_comment=None), at)
+                out.append(_fresh(a_))
+                return out
+            if isinstance(st, ast.Raise):
+                out.append(st)
+                return out
+            if not has_ret(st):
+                out.append(st)
+                continue
+            if isinstance(st, ast.If):
+                b = conv(list(st.body) + [clone_ast(r_) for r_ in rest])
+                o = conv(list(st.orelse) + [clone_ast(r_) for r_ in rest])
+                if b is None or o is None:
+                    return None
+                out.append(_fresh(ast.copy_location(ast.If(test=st.test, body=b, orelse=o), st)))
+                return out
+            return None
+        return None  # a path falls off the end: the helper answers None there, which `target = e` cannot express here
+
+    r = conv(list(stmts))
+    if r is None:
+        return None
+    for st in r:
+        for y in ast.walk(st):
+            if not hasattr(y, "lineno") and isinstance(y, (ast.stmt, ast.expr)):
+                ast.copy_location(y, at)
+    return r
+
+
 def _optional_conv(stmts: List[ast.stmt], x: str, at: ast.stmt) -> Optional[List[ast.stmt]]:
     """the statements of a helper (parameters already renamed) that answers None for "not mine", placed where
     `x = helper(..); if x is not None: return x` stood: `return None` falls out to what follows, `return E` becomes
@@ -349,7 +545,7 @@ def _tail_helper_body(model: Model, fi: FuncInfo, body: List[ast.stmt], caller_n
     if got is None:
         return None
     h, skip = got
-    if h is fi or isinstance(h.node, ast.Lambda) or not h.is_private or any(ast.unparse(d) != "staticmethod" for d in h.node.decorator_list):
+    if h is fi or h.name in _KEEP or isinstance(h.node, ast.Lambda) or not h.is_private or any(ast.unparse(d) != "staticmethod" for d in h.node.decorator_list):
         return None
     n_sites = len(call_sites_of(model, h))
     small = sum(1 for x in ast.walk(h.node) if isinstance(x, ast.stmt)) <= 8 and not any(c_ is h for c_, _cl, _sk in call_sites_of(model, h))
@@ -363,10 +559,13 @@ def _tail_helper_body(model: Model, fi: FuncInfo, body: List[ast.stmt], caller_n
     nested = [x for st in h.node.body for x in ast.walk(st) if isinstance(x, (ast.FunctionDef, ast.Lambda))]
     if procedure and any(isinstance(x, ast.Return) for st in h.node.body for x in ast.walk(st)):
         return None
+    multi_ret = False
     if assign_to is not None:
         rets_ = [x for st in h.node.body for x in ast.walk(st) if isinstance(x, ast.Return)]
-        if len(rets_) != 1 or rets_[0] is not h.node.body[-1] or rets_[0].value is None:
+        if not rets_ or any(r_.value is None for r_ in rets_):
             return None
+        if len(rets_) != 1 or rets_[0] is not h.node.body[-1]:
+            multi_ret = True  # several results: each `return e` becomes `target = e` in an if/else structure (below)
     ren: Dict[str, str] = {}
     if skip:
         if not (isinstance(call.func, ast.Attribute) and isinstance(call.func.value, ast.Name)):
@@ -389,8 +588,20 @@ def _tail_helper_body(model: Model, fi: FuncInfo, body: List[ast.stmt], caller_n
             ren[p_] = tmp
     # a parameter of the helper must not be re-bound there (it would re-bind the caller's local: harmless, but keep it simple)
     stores = {x.id for st in h.node.body for x in ast.walk(st) if isinstance(x, ast.Name) and isinstance(x.ctx, ast.Store)}
-    if stores & (set(ren) | set(const_args)):
+    if stores & set(const_args):
         return None
+    for p_ in sorted(stores & set(ren)):
+        # a parameter the helper re-binds: a local of the helper that starts as the argument (the caller's variable of
+        # that name is not touched)
+        tmp = f"{p_}_h"
+        while tmp in (caller_names or set()) or tmp in stores:
+            tmp += "_"
+        st_ = ast.Assign(targets=[ast.Name(id=tmp, ctx=ast.Store())], value=ast.Name(id=ren[p_], ctx=ast.Load()), type_comment=None)
+        ast.copy_location(st_, body[-1])
+        ast.fix_missing_locations(st_)
+        st_._fresh = True  # type: ignore
+        pre.append(st_)
+        ren[p_] = tmp
     caller_names = (caller_names or set()) | {x.id for st in body for x in ast.walk(st) if isinstance(x, ast.Name)} | set(fi.pos_params)
     for loc in stores:
         if loc in caller_names and loc not in ren:
@@ -437,6 +648,13 @@ def _tail_helper_body(model: Model, fi: FuncInfo, body: List[ast.stmt], caller_n
             return n
 
     hb = [st for st in h.node.body if not (isinstance(st, ast.Expr) and isinstance(st.value, ast.Constant) and isinstance(st.value.value, str))]
+    if multi_ret:
+        conv = _assign_conv([_R().visit(clone_ast(st)) for st in hb], assign_to, body[-1])
+        if conv is None:
+            return None
+        for c_ in conv:
+            c_._fresh = True  # type: ignore
+        return list(pre) + conv
     out = list(pre)
     for st in hb:
         c_ = _R().visit(clone_ast(st))
@@ -569,6 +787,8 @@ def _unroll(model: Model, fi: FuncInfo) -> FuncInfo:
         if tc.n:
             for st_ in body:
                 _fresh(st_)
+    body, ch = _split_records(model, fi, body)
+    changed = changed or ch
     new_body = body
     if not changed:
         return fi
